@@ -206,6 +206,18 @@ static void verify_all(world_t *w, const unsigned char *imprint, size_t n, int h
 		vf_count("impl_calls", 1);
 		judge(w, "verifyWithPolicy+ctx-other-signature", exp, rc, 0, 0, 0, detail);
 		w->vc.signature = w->sig; w->vc.documentHash = NULL; w->vc.docAggrLevel = 0;
+		/* (2g) one of the two as an explicit argument, the other one in the caller's context: both decide */
+		if (h != NULL && level != 0) {
+			w->vc.documentHash = NULL; w->vc.docAggrLevel = level;
+			rc = KSI_Signature_verifyWithPolicy(w->sig, h, 0, w->policy, &w->vc);
+			vf_count("impl_calls", 1);
+			judge(w, "verifyWithPolicy+hash-explicit+level-in-ctx", exp, rc, 0, 0, 0, detail);
+			w->vc.documentHash = h; w->vc.docAggrLevel = 0;
+			rc = KSI_Signature_verifyWithPolicy(w->sig, NULL, level, w->policy, &w->vc);
+			vf_count("impl_calls", 1);
+			judge(w, "verifyWithPolicy+level-explicit+hash-in-ctx", exp, rc, 0, 0, 0, detail);
+			w->vc.documentHash = NULL; w->vc.docAggrLevel = 0;
+		}
 		/* (2c) hash and level only in the caller's context (explicit arguments NULL / 0), and (2d) the same context given to
 		 * the parsing helper, which verifies the freshly parsed signature with it */
 		{
